@@ -1,7 +1,8 @@
 (* Proofs about the file pool model: the statements restated in Properties.v. *)
 From Coq Require Import Lia ZifyBool ZifyNat ZifyN Permutation.
 From VF Require Import Pool.Model Pool.Spec.
-From VF Require Export Pool.ProofsAlloc Pool.ProofsInv Pool.ProofsDev Pool.ProofsWrite Pool.ProofsContent Pool.ProofsRead Pool.ProofsRefine.
+From VF Require Export Pool.ProofsAlloc Pool.ProofsInv Pool.ProofsDev Pool.ProofsWrite Pool.ProofsContent Pool.ProofsRead Pool.ProofsRefine
+  Pool.ProofsEvents Pool.ProofsTrunc Pool.ProofsSeek Pool.ProofsMonitor Pool.ProofsMonitor2.
 
 (* ---- sectors_partition ----------------------------------------------------------- *)
 
@@ -88,4 +89,110 @@ Lemma quota_monitor_lemma c ops : 0 < c_ss c ->
 Proof.
   intros Hss s Hin. destruct (trace_inv c Hss ops (init c) s (init_inv c) Hin) as (st' & HI & ->).
   now apply observe_quota.
+Qed.
+
+(* ---- file_refines_bytes: the whole monitor accepts every model trace ------------------- *)
+
+Definition Sim (c : cfg) (m : mon) (st : state) : Prop :=
+  Inv3 c st /\ own_rel (m_own m) st /\ refs_rel c (m_refs m) st /\ m_obs m = observe st.
+
+Lemma p_sectors_not_panic c own k x evs own' : p_sectors c own k x evs = Good own' -> x <> OPanic.
+Proof. intros H ->. discriminate. Qed.
+
+Lemma step_sim c m st o st' x evs :
+  0 < c_ss c -> Sim c m st -> op_wf o = true -> step c st o = (st', x, evs) ->
+  exists m', p_step c m o x evs (observe st') = Good m' /\ Sim c m' st' /\ x <> OPanic.
+Proof.
+  intros Hss (H3 & HO & HR & Hobs) Hwf E.
+  destruct (step_sectors c st o st' x evs (m_own m) Hss H3 HO E) as (own' & Hsec & HO').
+  pose proof (p_sectors_not_panic _ _ _ _ _ _ Hsec) as Hx.
+  destruct (step_content c Hss st o st' x evs (m_refs m) H3 HR Hwf E Hx) as (Hseek & r' & Hcont & HR').
+  pose proof (step_inv3 c st o st' x evs Hss H3 Hwf E) as H3'.
+  exists (mkMon own' r' (observe st')). split; [|split; [split; [|split; [|split]]|]]; auto.
+  unfold p_step. rewrite Hsec. cbn [bind]. rewrite Hseek. cbn [bind]. rewrite Hobs, Hcont. cbn [bind].
+  rewrite (refs_rel_lens c r' st' HR'). cbn [check bind].
+  destruct H3' as ((HI' & _) & _). rewrite (observe_quota c st' HI'). reflexivity.
+Qed.
+
+Lemma trace_sim c : 0 < c_ss c -> forall ops st m i, Sim c m st -> ops_wf ops ->
+  trace_from c m i (trace c st ops) = None.
+Proof.
+  intros Hss. induction ops as [|o tl IH]; intros st m i HS Hwf; [reflexivity|].
+  cbn [trace]. destruct (step c st o) as [[st' x] evs] eqn:E.
+  destruct (step_sim c m st o st' x evs Hss HS (Hwf o (or_introl eq_refl)) E) as (m' & Hp & HS' & Hx).
+  cbn [trace_from t_op t_out t_evs t_obs]. rewrite Hp.
+  assert (Hwf' : ops_wf tl) by (intros o' Ho'; apply Hwf; now right).
+  destruct x; try congruence; apply IH; auto.
+Qed.
+
+Lemma sim_init c : Sim c (mon_init c) (init c).
+Proof.
+  split; [apply init_inv3|]. split; [apply own_rel_init; reflexivity|]. split; [|reflexivity].
+  unfold refs_rel, refs_init, init. cbn. repeat constructor.
+Qed.
+
+Lemma file_refines_bytes_lemma c ops : 0 < c_ss c -> ops_wf ops -> trace_ok c (trace c (init c) ops) = true.
+Proof.
+  intros Hss Hwf. unfold trace_ok. now rewrite (trace_sim c Hss ops (init c) (mon_init c) 0 (sim_init c) Hwf).
+Qed.
+
+(* the simulation holds in every reachable state: the monitor state after the trace exists *)
+Lemma run_sim c ops : 0 < c_ss c -> ops_wf ops -> forall st m, Sim c m st -> exists m', Sim c m' (run c st ops).
+Proof.
+  intros Hss. induction ops as [|o tl IH]; intros Hwf st m HS; cbn [run]; [eauto|].
+  destruct (step c st o) as [[st' x] evs] eqn:E.
+  destruct (step_sim c m st o st' x evs Hss HS (Hwf o (or_introl eq_refl)) E) as (m' & _ & HS' & _).
+  apply (IH ltac:(intros o' Ho'; apply Hwf; now right) st' m' HS').
+Qed.
+
+(* ---- Truncate, byte by byte, in every reachable state ------------------------------------ *)
+
+Lemma truncate_refines_lemma c ops slot f w size w' f' e : 0 < c_ss c -> ops_wf ops ->
+  let st := run c (init c) ops in
+  get_file st slot = Some f -> w_dev w = st_dev st -> w_al w = st_al st -> (0 <= size)%Z ->
+  file_truncate (c_ss c) w f size = (w', f', e) ->
+  let sz := Z.to_nat size in
+  (forall j, j < sz -> j < N.to_nat (f_size f) -> content (c_ss c) (w_dev w') f' j = content (c_ss c) (w_dev w) f j) /\
+  (forall j, N.to_nat (f_size f) <= j -> content (c_ss c) (w_dev w) f j = 0%N) /\
+  (forall j, N.to_nat (f_size f') <= j -> content (c_ss c) (w_dev w') f' j = 0%N) /\
+  (e = ENone -> f_size f' = Z.to_N size /\
+     forall j, N.to_nat (f_size f) <= j -> j < sz -> content (c_ss c) (w_dev w') f' j = 0%N) /\
+  (e <> ENone -> f_size f' = f_size f /\ sz < N.to_nat (f_size f)).
+Proof.
+  intros Hss Hwf st Hg Hd Hal Hsz ET sz.
+  destruct (run_inv3 c ops Hss Hwf (init c) (init_inv3 c)) as ((HI & Hl) & HF). fold st in HI, Hl, HF.
+  destruct (slot_ainv _ _ _ _ HI Hg) as (oth & Ha). rewrite <- Hal in Ha. rewrite <- Hd in Hl.
+  pose proof (HF slot f Hg) as Hwff. rewrite <- Hd in Hwff.
+  destruct (file_truncate_wf (c_ss c) (c_nsec c) Hss w f size w' f' e oth Ha Hl Hsz ET Hwff)
+    as ((_ & I2' & _) & Hcont & _ & _ & Hok & Hfail).
+  destruct Hwff as (_ & I2 & _). fold sz in Hcont.
+  splits; auto.
+  - intros He. split; auto. intros j Hj Hjs. rewrite Hcont by auto. apply I2. exact Hj.
+  - intros He. destruct (Hfail He). auto.
+Qed.
+
+(* ---- GetNextRegionOffset in every reachable state --------------------------------------------- *)
+
+Lemma seek_refines_lemma c ops slot f w off (data : bool) w' x : 0 < c_ss c -> ops_wf ops ->
+  let st := run c (init c) ops in
+  get_file st slot = Some f -> w_dev w = st_dev st -> w_al w = st_al st -> w_ev w = [] ->
+  (0 <= off)%Z -> (Z.to_N off < f_size f)%N ->
+  file_seek (c_ss c) w f off data = (w', x) ->
+  exists r e, x = ORes r e [] /\ a_panic (w_al w') = false /\
+    match e with
+    | ENone => (0 <= r)%Z /\
+               if data then DataRes c f (Z.to_nat off) (Z.to_nat r) else HoleRes c f (Z.to_nat off) (Z.to_nat r)
+    | EEOF => data = true /\ forall j, Z.to_nat off <= j -> ~ data_at c f j
+    | _ => e = EInjected /\ existsb is_failed_ev (w_ev w') = true
+    end.
+Proof.
+  intros Hss Hwf st Hg Hd Hal Hev Hoff Hlt ES.
+  destruct (run_inv3 c ops Hss Hwf (init c) (init_inv3 c)) as ((HI & Hl) & HF). fold st in HI, Hl, HF.
+  destruct (slot_ainv _ _ _ _ HI Hg) as (oth & Ha). rewrite <- Hal in Ha. rewrite <- Hd in Hl.
+  destruct (HF slot f Hg) as (I1 & _ & I3 & I4f).
+  assert (HL : LW c oth (nz (f_secs f)) [] w (nz (f_secs f))).
+  { split; [|split]; auto. exists [], (nz (f_secs f)). rewrite Hev. splits; auto. }
+  destruct (file_seek_spec c oth (nz (f_secs f)) [] Hss w f off data w' x (nz (f_secs f)) I1 I3 I4f HL Hoff Hlt ES)
+    as (r & e & -> & ((_ & Hp & _) & _) & _ & Hres).
+  exists r, e. splits; auto. destruct e; auto; destruct Hres as (He & Hres); try discriminate; auto.
 Qed.
